@@ -112,6 +112,10 @@ struct pfx {
     struct pfx_sink *sinks[PFX_MAX_SINKS];
     unsigned root_unhandled;
     char msg[512];
+    /* optional: called when a pipe watched by recording probe `probe_id` throws need_output (an application that plumbs
+     * lazily answers by calling upipe_set_output); return UBASE_ERR_UNHANDLED to let the event go on */
+    int (*need_output_hook)(struct pfx *pfx, int probe_id, struct upipe *upipe, void *opaque);
+    void *need_output_opaque;
 };
 
 int  pfx_init(struct pfx *pfx, const struct pfx_cfg *cfg);
